@@ -788,6 +788,8 @@ func c18errName(e int64) string {
 		return "ErrVersionMismatch"
 	case core.ErrNoSuchTract:
 		return "ErrNoSuchTract"
+	case core.ErrCanceled:
+		return "ErrCanceled"
 	}
 	return fmt.Sprintf("E%d", e)
 }
@@ -1443,6 +1445,9 @@ func TestVerifC18(t *testing.T) {
 	// ---- part 3: Manager open-file accounting (F4) ----
 	c18managerPart(mtr, root)
 
+	// ---- part 3b: Store over a real Manager, contexts canceled at every stage of every request ----
+	c18managerStorePart(mtr)
+
 	// ---- part 4 (thorough tier only, search support): the concurrent mixes free-running under the race detector ----
 	if vw.Thorough() && os.Getenv("VERIF_CASES") == "" {
 		c18raceSupport()
@@ -1698,3 +1703,244 @@ func c18some(n int) string {
 }
 
 var _ = sort.Ints
+
+// ---------- part 3b: Store operations on a Manager-backed disk with canceled contexts ----------
+// A thin Disk wrapper around the real Manager calls a hook before every Disk call of the running operation; the hook
+// cancels the operation's context at a chosen call index, in one of three ways:
+//   mode 0  synchronously before the call is handed to the Manager (index 0 = before the operation starts),
+//   mode 1  while the request sits in the Manager's queue (workers retired, request queued, cancel, workers restarted),
+//   mode 2  concurrently with the request's execution (a race on purpose; monitors only, not written to the trace).
+// After every operation: Manager.openFiles back to its base, no /proc/self/fd entry under the tract directory, busy map
+// empty. Every Open/Close of the wrapper is a line `30 req ok openFiles` (req 1 open ok, 2 open failed, 7 open canceled,
+// 3 close) judged by the model's manager counter.
+type c18mwrap struct {
+	Disk
+	hook func(kind int)
+	post func(kind int, err core.Error)
+}
+
+func (d *c18mwrap) Open(ctx context.Context, id core.TractID, flags int) (interface{}, core.Error) {
+	d.hook(c18ckOpen)
+	f, e := d.Disk.Open(ctx, id, flags)
+	d.post(c18ckOpen, e)
+	return f, e
+}
+func (d *c18mwrap) Close(f interface{}) core.Error {
+	d.hook(c18ckClose)
+	e := d.Disk.Close(f)
+	d.post(c18ckClose, e)
+	return e
+}
+func (d *c18mwrap) Write(ctx context.Context, f interface{}, b []byte, off int64) (int, core.Error) {
+	d.hook(c18ckWrite)
+	return d.Disk.Write(ctx, f, b, off)
+}
+func (d *c18mwrap) Read(ctx context.Context, f interface{}, b []byte, off int64) (int, core.Error) {
+	d.hook(c18ckRead)
+	return d.Disk.Read(ctx, f, b, off)
+}
+func (d *c18mwrap) Size(f interface{}) (int64, core.Error) { d.hook(c18ckSize); return d.Disk.Size(f) }
+func (d *c18mwrap) Delete(id core.TractID) core.Error     { d.hook(c18ckDelete); return d.Disk.Delete(id) }
+func (d *c18mwrap) Getxattr(f interface{}, name string) ([]byte, core.Error) {
+	d.hook(c18ckGetx)
+	return d.Disk.Getxattr(f, name)
+}
+func (d *c18mwrap) Setxattr(f interface{}, name string, value []byte) core.Error {
+	d.hook(c18ckSetx)
+	return d.Disk.Setxattr(f, name, value)
+}
+
+type c18okTalker struct{}
+
+func (c18okTalker) CtlRead(ctx context.Context, addr string, id core.TractID, version, length int, off int64) ([]byte, core.Error) {
+	return []byte{1, 2, 3}, core.NoError
+}
+func (c18okTalker) CtlWrite(ctx context.Context, addr string, id core.TractID, v int, off int64, b []byte) core.Error {
+	return core.ErrRPC
+}
+
+func c18fdsUnder(dir string) int {
+	ents, err := os.ReadDir("/proc/self/fd")
+	if err != nil {
+		return 0
+	}
+	n := 0
+	for _, e := range ents {
+		if tgt, err := os.Readlink(filepath.Join("/proc/self/fd", e.Name())); err == nil && strings.HasPrefix(tgt, dir+"/") {
+			n++
+		}
+	}
+	return n
+}
+
+func c18managerStorePart(tr *vw.Trace) {
+	dir, err := ioutil.TempDir("", "c18mgrs")
+	if err != nil {
+		panic(err)
+	}
+	defer os.RemoveAll(dir)
+	cfg := DefaultTestConfig
+	cfg.ScrubRate = 0
+	m, merr := NewManager(dir, &cfg)
+	if merr != nil {
+		panic(merr)
+	}
+	var (
+		calls    int
+		cancelAt int
+		mode     int
+		cancel   context.CancelFunc
+		lines    [][]int64
+		base     int64
+		live     bool
+	)
+	w := &c18mwrap{Disk: m}
+	w.hook = func(kind int) {
+		if !live {
+			return
+		}
+		calls++
+		if calls != cancelAt || cancel == nil {
+			return
+		}
+		switch mode {
+		case 0:
+			cancel()
+		case 1: // cancel while the request is queued: nobody executes until the context is canceled
+			m.setWorkers(0)
+			c := cancel
+			go func() {
+				for i := 0; m.queue.Len() == 0 && i < 2000; i++ {
+					time.Sleep(50 * time.Microsecond)
+				}
+				c()
+				m.setWorkers(cfg.Workers)
+			}()
+		case 2:
+			go cancel()
+		}
+	}
+	w.post = func(kind int, e core.Error) {
+		if !live {
+			return
+		}
+		of := atomic.LoadInt64(&m.openFiles) - base
+		switch {
+		case kind == c18ckOpen && e == core.NoError:
+			lines = append(lines, []int64{30, 1, 1, of})
+		case kind == c18ckOpen && e == core.ErrCanceled:
+			lines = append(lines, []int64{30, 7, 0, of})
+		case kind == c18ckOpen:
+			lines = append(lines, []int64{30, 2, 0, of})
+		case kind == c18ckClose:
+			ok := int64(0)
+			if e == core.NoError {
+				ok = 1
+			}
+			_ = ok
+			lines = append(lines, []int64{30, 3, 1, of})
+		}
+	}
+	s := NewStore(c18okTalker{}, NewMetadataStore(), &cfg)
+	s.AddDisk(w)
+	bg := context.Background()
+	type mop struct {
+		name  string
+		fresh bool // run on a tract that does not exist yet
+		run   func(ctx context.Context, id core.TractID) core.Error
+	}
+	data := []byte{9, 8, 7}
+	ops := []mop{
+		{"Create", true, func(ctx context.Context, id core.TractID) core.Error { return s.Create(ctx, id, data, 0) }},
+		{"CreateExisting", false, func(ctx context.Context, id core.TractID) core.Error { return s.Create(ctx, id, data, 0) }},
+		{"Write", false, func(ctx context.Context, id core.TractID) core.Error { return s.Write(ctx, id, 1, data, 1) }},
+		{"WriteBadVersion", false, func(ctx context.Context, id core.TractID) core.Error { return s.Write(ctx, id, 5, data, 1) }},
+		{"Read", false, func(ctx context.Context, id core.TractID) core.Error { _, e := s.Read(ctx, id, 1, 3, 0); return e }},
+		{"Stat", false, func(ctx context.Context, id core.TractID) core.Error { _, _, e := s.Stat(ctx, id, 1); return e }},
+		{"PullTract", false, func(ctx context.Context, id core.TractID) core.Error { return s.PullTract(ctx, []string{"a"}, id, 2) }},
+		{"PullTractAbsent", true, func(ctx context.Context, id core.TractID) core.Error { return s.PullTract(ctx, []string{"a"}, id, 2) }},
+		{"PackTracts", true, func(ctx context.Context, id core.TractID) core.Error {
+			sp := &core.PackTractSpec{ID: core.TractID{Blob: core.BlobIDFromParts(5, 77), Index: 1}, From: []core.TSAddr{{ID: 1, Host: "a"}}, Version: 1, Offset: 0, Length: 3}
+			return s.PackTracts(ctx, 4, []*core.PackTractSpec{sp}, c18chunk(int(id.Index)+1000))
+		}},
+		// operations without a caller context (context.TODO inside): run for the balance only
+		{"SetVersion", false, func(ctx context.Context, id core.TractID) core.Error { _, e := s.SetVersion(id, 2, 0); return e }},
+		{"GCOld", false, func(ctx context.Context, id core.TractID) core.Error { return s.maybeGCTract(core.TractState{ID: id, Version: 1}) }},
+		{"GCGone", false, func(ctx context.Context, id core.TractID) core.Error { s.GCTracts(nil, []core.TractID{id}); return core.NoError }},
+		{"Check", false, func(ctx context.Context, id core.TractID) core.Error { s.Check([]core.TractState{{ID: id, Version: 1}}); return core.NoError }},
+	}
+	next := 1
+	for _, op := range ops {
+		for md := 0; md <= 2; md++ {
+			for k := 0; k <= 12; k++ {
+				if md != 0 && k == 0 {
+					continue
+				}
+				cid := fmt.Sprintf("mgrs-%s-m%d-k%d", op.name, md, k)
+				if !vw.CaseSelected(cid) {
+					continue
+				}
+				id := core.TractID{Blob: core.BlobIDFromParts(3, 500), Index: core.TractKey(next)}
+				next++
+				live = false
+				if !op.fresh {
+					if e := s.Create(bg, id, []byte{1, 2, 3, 4}, 0); e != core.NoError {
+						panic("c18 manager store setup: " + e.String())
+					}
+				}
+				base = atomic.LoadInt64(&m.openFiles)
+				fd0 := c18fdsUnder(m.tractRoot)
+				ctx, cf := context.WithCancel(bg)
+				cancel, calls, cancelAt, mode, lines = cf, 0, k, md, nil
+				if k == 0 {
+					cf()
+				}
+				live = true
+				res := op.run(ctx, id)
+				live = false
+				cf()
+				reached := k == 0 || calls >= k
+				// let a mode-1 helper goroutine restart the workers before we look
+				for i := 0; atomic.LoadUint64(&m.workers) == 0 && i < 4000; i++ {
+					time.Sleep(50 * time.Microsecond)
+				}
+				of := atomic.LoadInt64(&m.openFiles) - base
+				fds := c18fdsUnder(m.tractRoot) - fd0
+				s.busyLock.Lock()
+				nb := len(s.busy)
+				s.busyLock.Unlock()
+				c := &c18case{id: cid}
+				detail := map[string]interface{}{"op": op.name, "cancelBeforeCall": k, "mode": md, "result": c18errName(int64(res)), "openFilesDelta": of, "fdDelta": fds}
+				if of != 0 {
+					vw.Stat("mon.manager-open-file-leak", 1)
+					c18reportOnce(c, fmt.Sprintf("manager-openfiles-not-restored-op=%s-result=%s", op.name, c18errName(int64(res))),
+						"a Store operation on a Manager-backed disk returned and Manager.openFiles is not back to its previous value (Stop will never retire the workers)", detail)
+				}
+				if fds != 0 {
+					vw.Stat("mon.manager-fd-leak", 1)
+					c18reportOnce(c, fmt.Sprintf("manager-fd-leak-op=%s-result=%s", op.name, c18errName(int64(res))),
+						"a Store operation on a Manager-backed disk returned and left a file descriptor open on a tract file", detail)
+				}
+				if nb != 0 {
+					c18reportOnce(c, "busy-not-empty-at-quiescence", "a Store operation on a Manager-backed disk returned with the busy map not empty", detail)
+				}
+				vw.Stat("mgrs.cases", 1)
+				vw.Stat("mgrs.result="+c18errName(int64(res)), 1)
+				if md != 2 && len(lines) > 0 {
+					tr.Case(cid)
+					for _, l := range lines {
+						tr.Op(l...)
+						tr.Obs(777, 1)
+					}
+				}
+				if reached && k > 0 {
+					vw.Distinct(cid)
+				}
+				if !reached && k > 0 {
+					break // k is beyond the last Disk call of this operation
+				}
+			}
+		}
+	}
+	m.Stop()
+}
